@@ -328,6 +328,7 @@ type dcase struct {
 }
 
 type dobs struct {
+	Lasts    [][2]int64 // per yielded dialog: id and peer of Elem.Last (-1: none)
 	Yielded  []int64
 	Queries  [][3]int64
 	Finished bool
@@ -344,11 +345,41 @@ func keyLess(a, b [3]int64) bool {
 	return false
 }
 
+// A dialog's peer is a code: kind*peerKindBase + id with kind 0 channel, 1 user, 2 legacy chat -- the three
+// id namespaces of Telegram are separate, so (user 7) and (channel 7) are different dialogs.
+const peerKindBase = 1000000
+
+func mkPeer(code int64) tg.PeerClass {
+	id := code % peerKindBase
+	switch code / peerKindBase {
+	case 1:
+		return &tg.PeerUser{UserID: id}
+	case 2:
+		return &tg.PeerChat{ChatID: id}
+	}
+	return &tg.PeerChannel{ChannelID: id}
+}
+func peerCode(p tg.PeerClass) int64 {
+	switch v := p.(type) {
+	case *tg.PeerUser:
+		return peerKindBase + v.UserID
+	case *tg.PeerChat:
+		return 2*peerKindBase + v.ChatID
+	case *tg.PeerChannel:
+		return v.ChannelID
+	}
+	return -1
+}
+
 func serveDialogs(c dcase, od, oi int, op tg.InputPeerClass, limit int, queries *[][3]int64) tg.MessagesDialogsClass {
 	var peer int64
 	switch p := op.(type) {
 	case *tg.InputPeerChannel:
 		peer = p.ChannelID
+	case *tg.InputPeerUser:
+		peer = peerKindBase + p.UserID
+	case *tg.InputPeerChat:
+		peer = 2*peerKindBase + p.ChatID
 	case *tg.InputPeerEmpty, nil:
 	default:
 		peer = -1
@@ -370,20 +401,28 @@ func serveDialogs(c dcase, od, oi int, op tg.InputPeerClass, limit int, queries 
 		ds    []tg.DialogClass
 		msgs  []tg.MessageClass
 		chats []tg.ChatClass
+		users []tg.UserClass
 	)
 	for _, d := range page {
-		ds = append(ds, &tg.Dialog{Peer: &tg.PeerChannel{ChannelID: d.Peer}, TopMessage: int(d.Mid)})
-		chats = append(chats, &tg.Channel{ID: d.Peer, AccessHash: 5, Photo: &tg.ChatPhotoEmpty{}})
+		ds = append(ds, &tg.Dialog{Peer: mkPeer(d.Peer), TopMessage: int(d.Mid)})
+		switch d.Peer / peerKindBase {
+		case 1:
+			users = append(users, &tg.User{ID: d.Peer % peerKindBase, AccessHash: 5})
+		case 2:
+			chats = append(chats, &tg.Chat{ID: d.Peer % peerKindBase, Photo: &tg.ChatPhotoEmpty{}})
+		default:
+			chats = append(chats, &tg.Channel{ID: d.Peer, AccessHash: 5, Photo: &tg.ChatPhotoEmpty{}})
+		}
 		if d.Has {
-			msgs = append(msgs, &tg.Message{ID: int(d.Mid), Date: int(d.Date), PeerID: &tg.PeerChannel{ChannelID: d.Peer}})
+			msgs = append(msgs, &tg.Message{ID: int(d.Mid), Date: int(d.Date), PeerID: mkPeer(d.Peer)})
 		} else if c.EmptyMsg {
 			e := &tg.MessageEmpty{ID: int(d.Mid)}
-			e.SetPeerID(&tg.PeerChannel{ChannelID: d.Peer})
+			e.SetPeerID(mkPeer(d.Peer))
 			msgs = append(msgs, e)
 		}
 	}
-	slice := &tg.MessagesDialogsSlice{Dialogs: ds, Messages: msgs, Chats: chats, Count: int(c.Cnt)}
-	plain := &tg.MessagesDialogs{Dialogs: ds, Messages: msgs, Chats: chats}
+	slice := &tg.MessagesDialogsSlice{Dialogs: ds, Messages: msgs, Chats: chats, Users: users, Count: int(c.Cnt)}
+	plain := &tg.MessagesDialogs{Dialogs: ds, Messages: msgs, Chats: chats, Users: users}
 	switch c.Pol {
 	case 0:
 		return slice
@@ -428,7 +467,13 @@ func driveD(it *dialogs.Iterator, fuel int, queries *[][3]int64) (o dobs) {
 				o.Err = "not a dialog"
 				return
 			}
-			o.Yielded = append(o.Yielded, d.Peer.(*tg.PeerChannel).ChannelID)
+			o.Yielded = append(o.Yielded, peerCode(d.Peer))
+			// Elem.Last: the dialog's own top message, or nothing
+			if l := it.Value().Last; l != nil {
+				o.Lasts = append(o.Lasts, [2]int64{int64(l.GetID()), peerCode(l.GetPeerID())})
+			} else {
+				o.Lasts = append(o.Lasts, [2]int64{-1, -1})
+			}
 		}
 		o.Queries = append([][3]int64(nil), *queries...)
 		if o.Finished {
@@ -602,6 +647,20 @@ func main() {
 			c.Violate("dialogs-rpc-path-differs", fmt.Sprintf("GetDialogs builder path differs from QueryFunc path on %+v", dc), sh, ix, dc)
 			return
 		}
+		byPeer := map[int64]dl{}
+		for _, d := range dc.H {
+			byPeer[d.Peer] = d
+		}
+		for i, l := range o.Lasts {
+			d, ok := byPeer[o.Yielded[i]]
+			if !ok {
+				continue
+			}
+			if (d.Has && (l[0] != d.Mid || l[1] != d.Peer)) || (!d.Has && l[0] != -1) {
+				c.Violate("dialogs-wrong-top-message", fmt.Sprintf("dialogs iterator over %v limit %d: dialog %d yielded with top message id %d of peer %d, its own is %d (present=%v)", dc.H, dc.Limit, d.Peer, l[0], l[1], d.Mid, d.Has), sh, ix, dc)
+				break
+			}
+		}
 		if dc.Pol <= 1 {
 			if !o.Finished || o.After || !eq64(o.Yielded, want) {
 				sig := "dialogs-wrong-sequence"
@@ -705,6 +764,10 @@ func main() {
 			case 1:
 				mid -= int64(c.Rng.Range(1, 4))
 				peer = int64(100 + c.Rng.Intn(1000)*50 + i)
+			case 3: // distinct dates, the SAME numeric ids in the three peer namespaces
+				date -= int64(c.Rng.Range(1, 4))
+				mid = int64(1 + c.Rng.Intn(900))
+				peer = int64(i%3)*peerKindBase + 7 + int64(i/3)
 			default:
 				peer -= int64(c.Rng.Range(1, 4))
 			}
@@ -719,7 +782,7 @@ func main() {
 	for n := 0; n <= maxN; n++ {
 		for l := 1; l <= maxL; l++ {
 			for pol := 0; pol <= 2; pol++ {
-				for tie := 0; tie <= 2; tie++ {
+				for tie := 0; tie <= 3; tie++ {
 					cnt := int64(n)
 					if tie == 1 {
 						cnt = 0 // a count that lies
@@ -741,7 +804,7 @@ func main() {
 	for i := 0; i < c.N(300, 6000); i++ {
 		n := c.Rng.Range(1, maxN)
 		r := c.Rng.Fork()
-		oneD("random-missing", dcase{H: dhist(n, c.Rng.Intn(3), func(int) bool { return r.Chance(3, 4) }), Limit: c.Rng.Range(1, n+1), Pol: c.Rng.Intn(2), Cnt: int64(n), EmptyMsg: c.Rng.Bool()})
+		oneD("random-missing", dcase{H: dhist(n, c.Rng.Intn(4), func(int) bool { return r.Chance(3, 4) }), Limit: c.Rng.Range(1, n+1), Pol: c.Rng.Intn(2), Cnt: int64(n), EmptyMsg: c.Rng.Bool()})
 	}
 	c.Obs.Rule = fmt.Sprintf("messages: every (size 0..%d, limit 1..%d, response policy 0..4) with honest, zero and inflated counts and reversed pages; dialogs: every (size, limit, policy 0..2, tie pattern) with all top messages, plus every single missing top message for sizes 1..6 and random masks; each case through QueryFunc and through the GetHistory/GetDialogs builders; messages also with Total()/FetchTotal() calls before / in the middle of / after the iteration and through the generated Collect()/Count(); non-trivial = distinct case whose history is longer than one page", maxN, maxL)
 	c.Finish()
